@@ -23,6 +23,7 @@ EXPLANATION = (
     'wrapper classes define, as pure delegations, every method the adapters call on a stream; B2 decorator order [requires_auth, backoff_reauth]; the re-auth '
     'wrapper retries through itself. Rules C12.R1-R4.'
     ' Added with the seeded-defect rounds: body reads of streaming responses are transport calls, callbacks given to backoff cannot fail on transport errors, rewinding handlers of coroutines catch BaseException.'
+    ' Round 6: clean-up handlers read only names bound on every path into them, AuthRequired only on the not-429 side of a status test, no read of a body stream left in flight.'
 )
 NOT_DECIDED = 'that the bytes delivered are exact for every fault position (needs fault injection); the wall-clock bound of the retries'
 TRUSTED = ['the backoff library honours max_tries', "tqdm's CallbackIOWrapper delegates unknown attributes (third party)", 'CPython ast']
